@@ -175,7 +175,7 @@ def c12(tier, seed):
     ms.append(model("thr-dyadic", ["S1", "H2"], ["quote", "rebal"], depth, fees="free", bids=(8,), spreads=(0, 8),
                     reqs=reqs_d, invariants=inv, properties=props, dyadic=True))
     ms.append(model("lots", ["S1", "H2"], ["quote", "trade", "rebal"], depth, fees="dy", bids=(8, 12), spreads=(0, 4),
-                    dqs=(-1, 2), reqs=reqs_l, invariants=inv, properties=props))
+                    dqs=(-1, 2), reqs=reqs_l, maxrebal=2, invariants=inv, properties=props))
     # relative requests (absolute=False): the allocation is a change from the current holdings; held contracts that are not
     # mentioned are left alone
     reqs_r = [req({"S1": F(1, 4)}, absolute=False), req({"S1": F(-1, 8), "H2": F(1, 4)}, absolute=False, thr=t16),
@@ -188,7 +188,7 @@ def c12(tier, seed):
                         dqs=(-1, 2),
                         reqs=[req({"S2": F(1, 2), "F4": F(1, 8)}, thr=t8), req({"F4": F(1, 16)}, thr=t16),
                               req({"S2": F(-1, 4)}, thr=t8, fractional=False), req({"F4": F(1)}, thr=t16)],
-                        invariants=inv, properties=props))
+                        maxrebal=2, invariants=inv, properties=props))
     for m in ms:
         explore_and_replay(rep, m, clauses_of("C12"))
     return rep.finish()
